@@ -11,9 +11,13 @@ What is proved, for ALL inputs / operation lists:
   both directions, offset), flush does not change any of these;
 * a snapshot is a captured value: no later operation list changes what it returns, and it is never
   older than the ts it was asked to include;
-* `GetBetween`/`ReadBetween` equal their specification EXCEPT when the history-log chain is overrun —
-  and the overrun is real: `getBetween_overrun_returns_foreign_version` is a machine-checked witness
-  (finding), as is `failed_insert_after_reopen_empties_tree`.
+* `GetBetween`/`ReadBetween` equal their specification for EVERY key, map and range: the newest
+  version `≤ t2` if its ts is `≥ t1`, walking the key's OWN versions only (`getBetween_spec`); a flush is
+  not observable through them (`flush_preserves_getBetween`);
+* two repaired defects stay pinned as regression statements on their original inputs:
+  `getBetween_never_returns_foreign_version` (the history-log chain walk used to overrun into another
+  key's block) and `failed_insert_after_reopen_keeps_loaded_tree` (the rollback of a rejected insert
+  after `Open` used to install an empty tree).
 -/
 import ImmuModel.Index.MVMap
 import ImmuModel.Index.Snapshot
@@ -218,7 +222,7 @@ theorem scan_rows_plain (m : MVMap) (maxKeySize : Nat) (s r : ReaderSpec) (hr : 
 /-! ## Flush does not change the map -/
 
 /-- A flush moves versions from the node to the history log; it changes no key, no version list, no
-`get`, no `history`, no reader selection. (NOT `getBetween`: see the finding below.) -/
+`get`, no `history`, no reader selection (and no `getBetween`: `flush_preserves_getBetween`). -/
 theorem flush_preserves_reads (m : MVMap) (k : Bytes) :
     m.flush.get k = m.get k ∧
     (∀ off desc limit, m.flush.history k off desc limit = m.history k off desc limit) ∧
@@ -241,19 +245,14 @@ theorem flush_preserves_reads (m : MVMap) (k : Bytes) :
 
 /-! ## GetBetween -/
 
-/-- **`GetBetween` specification.** Whenever the history-log chain cannot be overrun (every block
-holds one version: at most one new version per key between two flushes) or one of the key's OWN
-versions decides the search, `lastUpdateBetween` returns what the walk over all versions returns… -/
-theorem getBetween_spec (m : MVMap) (hm : Reachable m) (k : Bytes) (e : Entry) (t1 t2 : Nat)
-    (hf : m.find k = some e) (h64 : e.hLogCount < 2 ^ 64)
-    (hsafe : e.blocks.length = e.hLogCount ∨ ∃ tv ∈ e.versions, tv.ts < t1 ∨ t2 = 0 ∨ tv.ts ≤ t2) :
+/-- **`GetBetween` specification.** For every map, key and range, `lastUpdateBetween` — in-node
+versions first, then the key's chain of history-log blocks, however many versions each flush moved
+into one block — returns what the walk over all versions OF THAT KEY returns… -/
+theorem getBetween_spec (m : MVMap) (k : Bytes) (e : Entry) (t1 t2 : Nat) (hf : m.find k = some e) :
     m.getBetween k t1 t2 = if t1 > t2 then .error .illegal else betweenAux t1 t2 e.versions := by
   unfold MVMap.getBetween
   rw [hf]
-  have hmem : e ∈ m.entries := by
-    unfold MVMap.find at hf
-    exact List.mem_of_find?_eq_some hf
-  exact lastUpdateBetween_eq_spec m.block0 e t1 t2 h64 ((reachable_wf hm).blocksNonempty e hmem) hsafe
+  exact lastUpdateBetween_eq_spec e t1 t2
 
 /-- …and that walk returns the NEWEST version with `ts ≤ t2` (no upper bound for `t2 = 0`), provided
 its ts is `≥ t1`, with the number of versions not newer than it… -/
@@ -270,28 +269,43 @@ theorem getBetween_spec_notFound (t1 t2 : Nat) (vs : List TV) (hd : vs.Pairwise 
     x = .keyNotFound ∧ ∀ tv ∈ vs, ¬ (t1 ≤ tv.ts ∧ (t2 = 0 ∨ tv.ts ≤ t2)) :=
   betweenAux_notFound t1 t2 vs hd x h
 
-/-- The map of the witness below: `a` gets versions at ts 1,2 (flush), `b` at ts 3,4,5 (flush). -/
+/-- A flush (versions move from the node into one new history-log block per key) is not observable
+through `GetBetween`. -/
+theorem flush_preserves_getBetween (m : MVMap) (k : Bytes) (t1 t2 : Nat) :
+    m.flush.getBetween k t1 t2 = m.getBetween k t1 t2 := by
+  unfold MVMap.getBetween
+  rw [flush_find]
+  cases m.find k with
+  | none => rfl
+  | some e => simp [lastUpdateBetween_eq_spec, flushEntry_versions]
+
+/-- The input of the repaired defect: `a` gets versions at ts 1,2 (flush), `b` at ts 3,4,5 (flush). -/
 def overrunWitness : Except Err MVMap :=
   runOps MVMap.empty [ .ins [([0x61], [1], 1), ([0x61], [2], 2)], .flush,
                        .ins [([0x62], [3], 3), ([0x62], [4], 4), ([0x62], [5], 5)], .flush ]
 
-/-- The value of `overrunWitness`, written out. -/
+/-- The value of `overrunWitness`, written out: `b`'s only history-log block holds TWO versions. -/
 def overrunEntryB : Entry := { key := [0x62], cur := ⟨[5], 5⟩, blocks := [[⟨[4], 4⟩, ⟨[3], 3⟩]] }
 def overrunMap : MVMap :=
-  { entries := [{ key := [0x61], cur := ⟨[2], 2⟩, blocks := [[⟨[1], 1⟩]] }, overrunEntryB], ts := 5, block0 := [⟨[1], 1⟩] }
+  { entries := [{ key := [0x61], cur := ⟨[2], 2⟩, blocks := [[⟨[1], 1⟩]] }, overrunEntryB], ts := 5 }
 
-/-- **FINDING (negation of the intended property, concrete witness).** In a reachable map,
-`GetBetween(b, 1, 2)` — `b` has NO version in `[1,2]` — returns the value `[1]` at ts 1, which is a
-version of the OTHER key `a`, with counter 0: the loop of `lastUpdateBetween` is bounded by the number
-of versions but advances one BLOCK per iteration, so after `b`'s only block (two versions) it follows
-`prevOff = 0` into the block at offset 0 of the history log. -/
-theorem getBetween_overrun_returns_foreign_version :
-    overrunWitness = .ok overrunMap ∧ Reachable overrunMap ∧ overrunMap.find [0x62] = some overrunEntryB ∧
-      overrunMap.getBetween [0x62] 1 2 = .ok ([1], 1, 0) ∧
-      (⟨[1], 1⟩ : TV) ∉ overrunEntryB.versions ∧
-      betweenAux 1 2 overrunEntryB.versions = .error .keyNotFound := by
-  have hm : overrunWitness = .ok overrunMap := rfl
-  exact ⟨hm, runOps_reachable Reachable.empty hm, rfl, by rfl, by decide, rfl⟩
+/-- **Regression statement of a repaired defect.** `lastUpdateBetween` used to bound its loop over
+history-log BLOCKS by the number of VERSIONS; on this map `GetBetween(b, 1, 2)` — `b` has no version in
+`[1,2]` — followed `prevOff = 0` past `b`'s only block into the block at offset 0 of the history log and
+returned `a`'s version `([1], 1)` with counter 0. The walk now ends with the key's chain: not found.
+And in general a successful `GetBetween` returns a version of the requested key. -/
+theorem getBetween_never_returns_foreign_version :
+    (overrunWitness = .ok overrunMap ∧ overrunMap.find [0x62] = some overrunEntryB ∧
+      overrunMap.getBetween [0x62] 1 2 = .error .keyNotFound ∧
+      overrunMap.getBetween [0x62] 1 4 = .ok ([4], 4, 2) ∧ overrunMap.getBetween [0x62] 1 3 = .ok ([3], 3, 1)) ∧
+    (∀ (m : MVMap) (k : Bytes) (e : Entry) (t1 t2 : Nat) (v : Bytes) (ts hc : Nat), m.find k = some e →
+      m.getBetween k t1 t2 = .ok (v, ts, hc) → (⟨v, ts⟩ : TV) ∈ e.versions) := by
+  refine ⟨⟨rfl, rfl, rfl, rfl, rfl⟩, ?_⟩
+  intro m k e t1 t2 v ts hc hf h
+  rw [getBetween_spec m k e t1 t2 hf] at h
+  split at h
+  · simp at h
+  · exact betweenAux_mem t1 t2 e.versions v ts hc h
 
 /-! ## Snapshots -/
 
@@ -318,19 +332,30 @@ def reopenWitness : TState :=
                   .ins [([0x6b, 0x33], [3], 0)],
                   .ins [([0x6b, 0x34], [4], 9), ([0x6b, 0x34], [5], 8)] ]
 
-/-- **FINDING (concrete witness).** insert k1,k2; Close; Open; insert k3 (accepted); a REJECTED bulk
-(same key twice with decreasing ts) ⇒ the tree is EMPTY and its time is 0: `lastSnapRoot` is nil after
-Open, so the rollback installs a fresh root — two persisted keys and one acknowledged key vanish. -/
-theorem failed_insert_after_reopen_empties_tree :
-    reopenWitness.cur.entries = [] ∧ reopenWitness.cur.ts = 0 ∧
+/-- **Regression statement of a repaired defect.** insert k1,k2; Close; Open; insert k3 (accepted); a
+REJECTED bulk (same key twice with decreasing ts). `lastSnapRoot` used to be nil after `Open`, so the
+rollback installed a fresh EMPTY root (ts 0). `Open` now records the loaded root: the rollback returns
+to the last flushed state — the two persisted keys at ts 1 (the unflushed k3 is dropped, as after any
+failed insert on a flushed tree). -/
+theorem failed_insert_after_reopen_keeps_loaded_tree :
+    reopenWitness.cur.entries.map Entry.key = [[0x6b, 0x31], [0x6b, 0x32]] ∧ reopenWitness.cur.ts = 1 ∧
+    reopenWitness.cur.get [0x6b, 0x31] = .ok ([1], 1, 1) ∧
     (TState.run {} [ .ins [([0x6b, 0x31], [1], 0), ([0x6b, 0x32], [2], 0)], .close, .reopen,
                      .ins [([0x6b, 0x33], [3], 0)] ]).cur.entries.length = 3 := by
-  decide
+  refine ⟨by decide, by decide, rfl, by decide⟩
+
+/-- After `Open` of a stored tree there is always a root to roll back to, and it holds exactly the
+keys and versions that were loaded. -/
+theorem reopen_sets_lastSnapRoot (s : TState) (h : s.closed = true) :
+    ∃ m, s.reopen.lastSnap = some m ∧ m.entries = s.reopen.cur.entries := by
+  unfold TState.reopen
+  simp only [h]
+  cases TState.bestDump s.loadedId s.dumps <;> exact ⟨_, rfl, rfl⟩
 
 /-! ## The B+tree implementation model refines the map -/
 
-/-- The map a tree stands for (`ts`, `block0` are not stored in the nodes of the model). -/
-def treeMap (n : Node) (ts : Nat) (block0 : List TV) : MVMap := { entries := n.abs, ts := ts, block0 := block0 }
+/-- The map a tree stands for (the tree time is the root's, kept outside the nodes of the model). -/
+def treeMap (n : Node) (ts : Nat) : MVMap := { entries := n.abs, ts := ts }
 
 /-- **Insert refinement.** For every node size, every tree satisfying the invariant (sorted leaves,
 no empty child — any depth, any shape) and every `(k, v, t)`: inserting through the root — leaf
@@ -344,11 +369,11 @@ NOT proved (kept as the target statement): `bulkInsert_refines` — the same for
 entries in one call, where `innerNode.updateOnInsert` groups the entries per child: it needs the
 commutation of inserts that go to different children. The model executes it (`Node.insert` takes the
 whole bulk); the correspondence with the code for multi-entry bulks is carried by the tie only. -/
-theorem insert_refines (maxNodeSize : Nat) (root : Node) (ts : Nat) (b0 : List TV) (k v : Bytes) (t : Nat)
+theorem insert_refines (maxNodeSize : Nat) (root : Node) (ts : Nat) (k v : Bytes) (t : Nat)
     (hinv : Node.Inv root) :
     match Node.insertRoot maxNodeSize root [(k, v, t)] with
-    | .ok root' => (treeMap root ts b0).insert k v t = .ok (treeMap root' (max ts t) b0) ∧ Node.Inv root'
-    | .error x => x = .other ∨ (treeMap root ts b0).insert k v t = .error x := by
+    | .ok root' => (treeMap root ts).insert k v t = .ok (treeMap root' (max ts t)) ∧ Node.Inv root'
+    | .error x => x = .other ∨ (treeMap root ts).insert k v t = .error x := by
   have h := Node.insertRoot_refines maxNodeSize root k v t hinv
   cases hr : Node.insertRoot maxNodeSize root [(k, v, t)] with
   | ok root' =>
@@ -366,12 +391,12 @@ theorem insert_refines (maxNodeSize : Nat) (root : Node) (ts : Nat) (b0 : List T
 /-- The proved part of the design's `bulkInsert_refines` (full statement: for EVERY bulk `kvts`,
 `Inv t → abs (insertRoot t kvts) = MVMap.bulkInsert (abs t) kvts ∧ Inv …`): bulks of ONE entry.
 Missing: bulks of several entries (per-child grouping ⇒ commutation of inserts into different children). -/
-theorem bulkInsert_refines_partial (maxNodeSize : Nat) (root : Node) (ts : Nat) (b0 : List TV) (k v : Bytes) (t : Nat)
+theorem bulkInsert_refines_partial (maxNodeSize : Nat) (root : Node) (ts : Nat) (k v : Bytes) (t : Nat)
     (hinv : Node.Inv root) :
     match Node.insertRoot maxNodeSize root [(k, v, t)] with
-    | .ok root' => (treeMap root ts b0).bulkInsert [(k, v, t)] = .ok (treeMap root' (max ts t) b0) ∧ Node.Inv root'
-    | .error x => x = .other ∨ (treeMap root ts b0).bulkInsert [(k, v, t)] = .error x := by
-  have h := insert_refines maxNodeSize root ts b0 k v t hinv
+    | .ok root' => (treeMap root ts).bulkInsert [(k, v, t)] = .ok (treeMap root' (max ts t)) ∧ Node.Inv root'
+    | .error x => x = .other ∨ (treeMap root ts).bulkInsert [(k, v, t)] = .error x := by
+  have h := insert_refines maxNodeSize root ts k v t hinv
   cases hr : Node.insertRoot maxNodeSize root [(k, v, t)] with
   | ok root' =>
     rw [hr] at h
@@ -385,8 +410,8 @@ theorem bulkInsert_refines_partial (maxNodeSize : Nat) (root : Node) (ts : Nat) 
     · right; simp [MVMap.bulkInsert, h]
 
 /-- **Get refinement.** The descent by separators finds exactly what the map holds. -/
-theorem get_refines (root : Node) (ts : Nat) (b0 : List TV) (k : Bytes) (hinv : Node.Inv root) :
-    root.get k = (treeMap root ts b0).get k := by
+theorem get_refines (root : Node) (ts : Nat) (k : Bytes) (hinv : Node.Inv root) :
+    root.get k = (treeMap root ts).get k := by
   unfold Node.get MVMap.get MVMap.find treeMap
   rw [Node.find_refines root k hinv.1 hinv.2]
   rfl
@@ -421,11 +446,16 @@ example : (do
     let m ← MVMap.empty.bulkInsert [([1], [1], 1), ([1, 0], [1], 2), ([1, 5], [1], 3), ([2], [1], 4)]
     m.scan 4 ⟨[1], [], [1], false, false, false, false, 1⟩) = .ok [([1, 5], [1], 3, 1)] := rfl
 
-/-- `getBetween_spec` is applicable: one version per flush, the newest version ≤ t2 is returned. -/
+/-- `getBetween_spec`: one version per flush, the newest version ≤ t2 is returned… -/
 example : (do
     let m ← MVMap.empty.insert [1] [1] 1
     let m ← m.flush.insert [1] [2] 4
     let m ← m.flush.insert [1] [3] 9
+    m.flush.getBetween [1] 2 8) = .ok ([2], 4, 2) := rfl
+
+/-- …and so it is with several versions per flush (one block of three versions below the newest). -/
+example : (do
+    let m ← MVMap.empty.bulkInsert [([1], [1], 1), ([1], [2], 4), ([1], [3], 9), ([1], [4], 12)]
     m.flush.getBetween [1] 2 8) = .ok ([2], 4, 2) := rfl
 
 /-- `snapshot_immutable`: a snapshot taken before later inserts still holds the old value. -/
